@@ -70,6 +70,10 @@ func (v *vc) frameFormula(fr *frame, st *state, h string) string {
 		}
 		excl = append(excl, fmt.Sprintf("(not (= r %s))", r))
 	}
+	if strings.HasPrefix(h, "A ") {
+		// row 0 is the backing "array" of nil / zero-capacity slices: it has no element anyone can reach
+		excl = append(excl, "(not (= r 0))")
+	}
 	top0 := v.entry.top
 	cond := and(append([]string{fmt.Sprintf("(< r %s)", top0), fmt.Sprintf("(< (elem_arr r) %s)", top0)}, excl...)...)
 	return fmt.Sprintf("(forall ((r Int)) (=> %s (= (select %s r) (select %s r))))", cond, cur, old)
